@@ -84,6 +84,12 @@ func (w *World) ProduceTree(p *TreePlan, or Oracles) []*Produced {
 			res = w.Propose(parent, skip, txs, nil)
 		}
 		ts := w.SlotTime(w.Blocks[parent], skip) + uint64(st.Jit)
+		if st.Reg > 0 {
+			if r2 := w.withRegistration(parent, res, st.Reg, pst); r2 != nil {
+				res = r2
+				r.Count("probe.contract_registration_block", 1)
+			}
+		}
 		if or.C15 {
 			want, ok := w.Tree.ScheduledValidator(pst, ts)
 			if !ok || want.PubKey != res.Validator {
